@@ -134,7 +134,16 @@ def build_harness(conf):
             sums.update(l for l in open(extra).read().splitlines() if l.strip())
         open(os.path.join(HARNESS, "go.sum"), "w").write("\n".join(sorted(sums)) + "\n")
         binname = "vharness-race" if conf.get("race") else "vharness"
-        cmd = ["go", "build", "-tags", "verif"] + (["-race"] if conf.get("race") else []) + \
+        modflags = []
+        if os.path.abspath(REPO) != "/repo":
+            # a scratch copy of the repository (mutation trials): alternate go.mod with the replaces pointing at it
+            tag = re.sub(r"[^A-Za-z0-9]", "_", os.path.abspath(REPO))
+            alt = os.path.join(HARNESS, "alt" + tag + ".mod")
+            open(alt, "w").write(open(os.path.join(HARNESS, "go.mod")).read().replace("=> /repo", "=> " + os.path.abspath(REPO)))
+            shutil.copy(os.path.join(HARNESS, "go.sum"), alt[:-4] + ".sum")
+            modflags = ["-modfile=" + alt]
+            binname += tag
+        cmd = ["go", "build", "-tags", "verif"] + modflags + (["-race"] if conf.get("race") else []) + \
               ["-o", os.path.join("bin", binname), "./cmd/vharness"]
         rc, out = run(cmd, cwd=HARNESS, env=GOENV, timeout=900)
         extra_bins = {}
